@@ -1325,6 +1325,30 @@ pub fn run(report: &mut Report, replay: Option<&Value>) {
     }
     report.count_extra("cases", cases as u64);
     report.count_extra("failing_cases", failing_cases);
+    if report.thorough() {
+        // coverage-guided campaign over the same oracle (libFuzzer target c15_response)
+        match crate::fuzz::run_target("c15_response", report.seed, 2_000_000, 20) {
+            Err(e) => {
+                report.assumptions.push(format!("libFuzzer tier unavailable, proptest campaign only: {}", e));
+                report.extra.insert("fuzz".into(), json!({"available": false, "why": e}));
+            }
+            Ok(fr) => {
+                report.extra.insert("fuzz".into(), json!({"available": true, "runs": fr.runs, "corpus_size": fr.corpus_size, "cov": fr.cov, "crash_artifacts": fr.artifacts.len()}));
+                report.evaluations += fr.runs;
+                for art in fr.artifacts {
+                    // the reproducible unit is the replay file: re-check the artefact in-process
+                    if let Err(what) = fuzz_one(&art) {
+                        let text = String::from_utf8_lossy(&art).into_owned();
+                        report.violation(
+                            &format!("fuzz:{}", what.chars().take(40).collect::<String>()),
+                            &format!("libFuzzer artefact: {}", what),
+                            json!({"engine": "e4", "tape_hex": crate::tape::hex(&art), "json_text": text, "check": "fuzz", "observed": what}),
+                        );
+                    }
+                }
+            }
+        }
+    }
 }
 
 /// Entry point of the libFuzzer target `c15_response`: the bytes are tried (a) as a JSON response
